@@ -607,7 +607,9 @@ class Exec:
                 cur = self.env.get(t.left.id)
             except KeyError:
                 cur = None
-            if isinstance(cur, OptV) and not_none_here:
+            from . import types as T_
+            declared_optional = isinstance(self.fctx.locals.get(t.left.id), T_.OPT)  # the contract reads it as (isnone, value)
+            if isinstance(cur, OptV) and not_none_here and not declared_optional:
                 v = cur.val
                 if getattr(cur.val, "owner", None) is None and getattr(cur, "owner", None) is not None:
                     v.owner = cur.owner
